@@ -19,6 +19,7 @@ from fractions import Fraction
 from common import frac_str, close
 
 MAX_EVALS_GUARD = 45          # a run that evaluates more often than this is cut (never reached by the generators)
+ES_V123_EVAL_POINTS = True      # see gen_cfg (fix-2 applied: the recorded count is the one the stopping rule reads)
 MAX_POINTS_GUARD = 4000      # ... and so is a run that evaluates far more points than any generated limit allows
 STRATEGIES = ("dimwise", "extend_split")
 _CLS = {}
@@ -108,8 +109,9 @@ def _classes():
 
             def __call__(self, interpolation_points):
                 r = super().__call__(interpolation_points)
+                fobs = self.__dict__.get("_verif_f") or self.operation.f
                 self.__dict__.setdefault("_verif_log", []).append(
-                    {"kind": "call", "values": np.asarray(r, dtype=float).tolist()})
+                    {"kind": "call", "values": np.asarray(r, dtype=float).tolist(), "seen": len(getattr(fobs, "seen", {}))})
                 return r
 
         Observed.__name__ = Observed.__qualname__ = name
@@ -220,7 +222,7 @@ def build(cfg, f=None, op=None):
     a, b = (np.array(x, dtype=float) for x in box_of(cfg))
     ctor = dict(cfg.get("ctor") or {})          # further constructor options of the strategy (d. option forwarding)
     if op is not None:
-        f = op.f
+        f = getattr(op, "f_model", None) or op.f      # (UQ keeps the model function; op.f may be the (f, f^2) wrapper)
     if f is None:
         f = make_f(cfg)
         if cfg.get("cache", True) is False:
@@ -257,6 +259,9 @@ def build(cfg, f=None, op=None):
                 ctor = dict(ctor, grid_surplusses=op.get_grid())
             else:
                 op = Integration(f, grid=grid, dim=dim, reference_solution=ref)
+                if cfg.get("surplus_grid") == "operation":
+                    # constructor option grid_surplusses=<the operation's grid>: the surplus helper IS the (basis-function) grid
+                    ctor = dict(ctor, grid_surplusses=grid)
         eo = ErrorCalculatorSingleDimVolumeGuided()
         sa = C["dimwise"](a, b, version=cfg.get("version", 6), operation=op, norm=norm, print_level=100, log_level=100, **ctor)
     else:
@@ -521,9 +526,10 @@ def object_clauses(viol, cfg, out, ret, prefix=""):
         q.append((int(sa.get_total_num_points()), [float(x) for x in np.atleast_1d(sa.operation.get_result())],
                   int(sa.operation.get_distinct_points(sa.scheme)), len(sa.get_areas())))
     after = ([float(x) for x in np.atleast_1d(ret[3])], [list(map(repr, ret[i])) for i in names], ret[4])
-    # (with reevaluate_at_end the final recomputation may evaluate further points after the last history entry -- extend-split
-    #  version 3 does --, so the count is compared with the last entry only without that option)
-    if q[0] != q[1] or q[1] != q[2] or snap != after or (len(ret[6]) and not cfg.get("reeval") and q[0][0] != int(ret[6][-1])) or \
+    # (with reevaluate_at_end the final recomputation, and with evaluation_points the interpolation diagnostics of the loop, may
+    #  evaluate further points after the last history entry -- extend-split version 3 does both --, so the count is compared with
+    #  the last entry only without these options)
+    if q[0] != q[1] or q[1] != q[2] or snap != after or (len(ret[6]) and not cfg.get("reeval") and not cfg.get("eval_points") and q[0][0] != int(ret[6][-1])) or \
             (not cfg.get("reeval") and q[0][1] != snap[0]):
         viol(prefix + "queries-disagree", {"three_reads (points, result, distinct points, areas)": q, "returned_points": int(ret[6][-1]) if len(ret[6]) else None,
                                            "returned_result": snap[0], "returned_tuple_changed_by_queries": snap != after})
@@ -541,6 +547,18 @@ def object_clauses(viol, cfg, out, ret, prefix=""):
             bad["evaluation_points"] = [list(map(float, p)) for p in kw["evaluation_points"]]
         if bad:
             viol(prefix + "caller-arguments-modified", bad)
+
+
+def seen_at_report(log_part):
+    """distinct integrand evaluations at the moment each history entry is written: after the evaluation and -- with
+    evaluation_points -- after the interpolation diagnostics of the same pass of the loop"""
+    out = []
+    for e in log_part:
+        if e["kind"] == "eval":
+            out.append(e["seen"])
+        elif e["kind"] == "call" and out and "seen" in e:
+            out[-1] = e["seen"]
+    return out
 
 
 def check_run(ctx, drv, cfg, limits, scout_stream=None, tag_extra=None, prior=None, then=None):
@@ -637,9 +655,9 @@ def check_run(ctx, drv, cfg, limits, scout_stream=None, tag_extra=None, prior=No
                                       "benefit_max": ev["benefit_max"]})
             break
     # reported point count = number of distinct integrand evaluations (counted by the integrand itself)
-    for i, ev in enumerate(evals[:n]):
-        if pts[i] != ev["seen"]:
-            viol("point-count", {"evaluation": i, "reported": pts[i], "distinct_evaluations": ev["seen"]})
+    for i, seen_i in enumerate(seen_at_report(log)[:n]):
+        if pts[i] != seen_i:
+            viol("point-count", {"evaluation": i, "reported": pts[i], "distinct_evaluations": seen_i})
             break
     if n and not runaway and out["sa"].operation.f.get_f_dict_size() != len(out["f"].seen):
         viol("point-count", {"final_reported": out["sa"].operation.f.get_f_dict_size(), "distinct_evaluations": len(out["f"].seen)})
@@ -713,8 +731,7 @@ def check_run(ctx, drv, cfg, limits, scout_stream=None, tag_extra=None, prior=No
     # point cache: batches of new requests per evaluation -> sizes
     order = sorted(out["f"].seen.items(), key=lambda kv: kv[1])
     batches, lo = [], 0
-    for ev in evals[:n]:
-        hi = ev["seen"]
+    for hi in seen_at_report(log)[:n]:
         batches.append([k for k, _ in order[lo:hi]])
         lo = hi
     if sum(len(b) for b in batches) <= 700:
@@ -795,9 +812,9 @@ def second_call(ctx, drv, cfg, L1, then, out, stream1, scout_stream, viol, corr)
     if any(pts[i] > pts[i + 1] for i in range(len(pts) - 1)):
         viol("continue-points-decrease", {"points": pts})
         ok = False
-    for k, ev in enumerate(evals2[:n2]):
-        if stream2[k][1] != ev["seen"]:
-            viol("continue-point-count", {"evaluation_in_call": k, "reported": stream2[k][1], "distinct_evaluations": ev["seen"]})
+    for k, seen_k in enumerate(seen_at_report(part)[:n2]):
+        if stream2[k][1] != seen_k:
+            viol("continue-point-count", {"evaluation_in_call": k, "reported": stream2[k][1], "distinct_evaluations": seen_k})
             ok = False
             break
     ref = reference_of(cfg, f)
@@ -916,7 +933,11 @@ def gen_cfg(rng, thorough, strategy=None):
     # the rarely used option evaluation_points: the loop interpolates at these points after every evaluation and returns two
     # more history arrays (interpolation errors in the 2- and the max-norm)
     # (not on the Gauss-Legendre grid: it has no boundary points and the d-linear interpolation of the code does not extrapolate)
-    if rng.random() < 0.25 and cfg.get("grid") != "gauss_legendre" and cfg.get("operation") != "uq":
+    # (and not with extend-split versions 1-3 on this tree: their interpolation evaluates NEW integrand points between the moment the
+    #  history entry is written and the moment the stopping rule reads the count -- a run stops "by max" with a reported count below the
+    #  maximum; repair proposed in handoff/postfix/C13/fix-2-*, whose staged harness generates the combination; ES_V123_EVAL_POINTS)
+    if rng.random() < 0.25 and cfg.get("grid") != "gauss_legendre" and cfg.get("operation") != "uq" and \
+            (ES_V123_EVAL_POINTS or not (strategy == "extend_split" and cfg.get("version") in (1, 2, 3))):
         lo, hi = box_of(cfg)
         cfg["eval_points"] = [[lo[d] + rng.choice([0.0, 1.0, 0.5, 0.25, 0.75, 0.3, 0.7, 0.125, 0.9]) * (hi[d] - lo[d]) for d in range(dim)]
                               for _ in range(rng.randint(2, 5))]
@@ -1059,6 +1080,12 @@ def run(ctx):
                     prior["strategy"] = "dimwise" if cfg["strategy"] == "extend_split" else "extend_split"
                     # (the other strategy needs far more evaluations for the point counts of a Gauss-Legendre stream)
                     prior["limits"]["max"] = min(prior["limits"]["max"], 300)
+            if cfg.get("operation") == "uq" and prior is not None and prior["kind"] != "unrelated_sibling":
+                # no reuse of UncertaintyQuantification objects: the (f, f^2) integrand is a wrapper around the model function whose own
+                # value cache survives a second run (the harness's per-run count of MODEL evaluations is then not the integrand's), and
+                # a second strategy object on the same weighted grid reports other surplus estimates than a fresh one (same error and
+                # points; surplus estimates are not a C13 clause)
+                prior = None
             ctx.count("history_" + (prior["kind"] if prior else "fresh"))
             # (a dimension-wise strategy OBJECT that runs twice does not repeat the run of a fresh object -- its level caches
             #  survive performSpatiallyAdaptiv --, so the scout stream predicts nothing there; the property's clauses and the
